@@ -42,6 +42,7 @@ struct NodeRt {
     gate: Arc<tokio::sync::Notify>,
     reached: Arc<std::sync::atomic::AtomicBool>,
     tracker: Tracker,      // the poller's keyspace tracker of this node (per-peer entries inside)
+    poller: Option<verif::Poller>,   // the real replication cycle service of this node, when a case started it
     _server: Server,
 }
 
@@ -77,6 +78,9 @@ impl Drop for ClusterDomain {
             d.kill();
         }
         for n in self.nodes.drain(..) {
+            if let Some(p) = n.poller.as_ref() {
+                p.kill();
+            }
             n._server.shutdown();
         }
         if let Some((s, _)) = self.fake.take() {
@@ -85,7 +89,7 @@ impl Drop for ClusterDomain {
     }
 }
 
-async fn make_node(id: u8, n: usize) -> NodeRt {
+async fn make_node(id: u8, _n: usize) -> NodeRt {
     let clock = Clock::new(id);
     let fs = FaultyStore::new(Arc::new(MemStore::default()));
     let directive = fs.next.clone();
@@ -95,7 +99,7 @@ async fn make_node(id: u8, n: usize) -> NodeRt {
     let (addr, server) = crate::rpc::listen_free().await;
     server.add_service(ConsistencyService::new(group.clone(), network.clone()));
     server.add_service(ReplicationService::new(group.clone()));
-    NodeRt { id, addr, clock, group, network, directive, gate, reached, tracker: Tracker::default(), _server: server }
+    NodeRt { id, addr, clock, group, network, directive, gate, reached, tracker: Tracker::default(), poller: None, _server: server }
 }
 
 fn fmt_pairs(mut v: Vec<(u64, HLCTimestamp)>) -> String {
@@ -422,6 +426,43 @@ impl Domain for ClusterDomain {
                     },
                 }
             },
+            // ---- C16, consumer side: the real replication cycle service (poller) fed with membership changes
+            "poll-start" => {
+                // poll-start <j> <interval ms>: the service sleeps its initial wait (500 ms) before the first tick: membership changes
+                // handed to it straight away are all drained, in order, by that first tick
+                let j = u(1);
+                let n = &self.nodes[j];
+                let p = rt.block_on(verif::start_poller::<Store>(n.group.clone(), n.network.clone(), Duration::from_millis(p_u64(t[2]))));
+                self.nodes[j].poller = Some(p);
+                "ok".into()
+            },
+            "poll-change" => {
+                // poll-change <j> <left> <joined>: lists of `<member id>@<node index>`, or `-`
+                let parse = |x: &str| -> Vec<datacake_node::ClusterMember> {
+                    if x == "-" {
+                        return vec![];
+                    }
+                    x.split(',')
+                        .map(|m| {
+                            let (id, idx) = m.split_once('@').expect("member");
+                            datacake_node::ClusterMember::new(p_u64(id) as u8, self.nodes[p_u64(idx) as usize].addr, "dc".to_string())
+                        })
+                        .collect()
+                };
+                let change = datacake_node::MembershipChange { left: parse(t[2]), joined: parse(t[3]) };
+                self.nodes[u(1)].poller.as_ref().expect("poller").membership_change(change);
+                "ok".into()
+            },
+            "poll-wait" => {
+                // poll-wait <j> <ms>: let the service run (initial wait + a few ticks), then stop it
+                rt.block_on(async { tokio::time::sleep(Duration::from_millis(p_u64(t[2]))).await });
+                if let Some(p) = self.nodes[u(1)].poller.take() {
+                    p.kill();
+                }
+                // a tick in progress finishes its exchanges
+                rt.block_on(async { tokio::time::sleep(Duration::from_millis(300)).await });
+                "ok".into()
+            },
             "repairm" => {
                 // repairm <j>: one round of the PRODUCTION loop of node j's poller (`repair_members`) over all other nodes as its live
                 // members: per peer poll, diff, both halves concurrently, tracker update on success, errors logged and skipped
@@ -519,6 +560,61 @@ impl Domain for ClusterDomain {
                         Err(e) => Err(format!("other {}", e.to_string().split_whitespace().next().unwrap_or(""))),
                     };
                     (ts, r, if is_put { Issued::Put(doc) } else { Issued::Del(meta) })
+                });
+                self.issued.entry(ksn()).or_default().push((i, issued));
+                match res {
+                    Ok(()) => format!("ok op={} ts={}", self.issued.get(&ksn()).map(|v| v.len()).unwrap_or(0) - 1, ts.as_u64()),
+                    Err(e) => format!("{} op={} ts={}", e, self.issued.get(&ksn()).map(|v| v.len()).unwrap_or(0) - 1, ts.as_u64()),
+                }
+            },
+            // ---- C06: bulk writes (put_many / del_many) with the replicas the level selected
+            "wmput" | "wmdel" => {
+                // wmput <i> <targets j,k|-> <first id> <count> <data>   /   wmdel <i> <targets> <first id> <count>
+                // ids first..first+count-1, ONE stamp for the whole batch, exactly as ReplicatedStoreHandle::put_many/del_many
+                let i = u(1);
+                let targets: Vec<usize> = if t[2] == "-" { vec![] } else { t[2].split(',').map(|x| p_u64(x) as usize).collect() };
+                let (first, count) = (p_u64(t[3]), p_u64(t[4]));
+                let is_put = t[0] == "wmput";
+                let data = if is_put { gen_data(t[5]) } else { vec![] };
+                let n = &self.nodes[i];
+                let addrs: Nodes = targets
+                    .iter()
+                    .map(|j| if self.down.contains(j) { crate::rpc::free_addr() } else { self.nodes[*j].addr })
+                    .collect();
+                let (ts, res, issued) = rt.block_on(async {
+                    let ts = n.clock.get_time().await;
+                    let ks = n.group.get_or_create_keyspace(&ksn()).await;
+                    let docs: DocVec<Document> = (first..first + count).map(|id| Document::new(id, ts, data.clone())).collect();
+                    let metas: DocVec<DocumentMetadata> = (first..first + count).map(|id| DocumentMetadata::new(id, ts)).collect();
+                    let issued = if is_put { Issued::MPut(docs.iter().cloned().collect()) } else { Issued::MDel(metas.iter().copied().collect()) };
+                    let local_ok = if is_put {
+                        matches!(tmo(ks.send(MultiSet { source: 0, docs: docs.clone(), ctx: None, _marker: PhantomData::<Store> })).await, Some(Ok(())))
+                    } else {
+                        matches!(tmo(ks.send(MultiDel { source: 0, docs: metas.clone(), _marker: PhantomData::<Store> })).await, Some(Ok(())))
+                    };
+                    if !local_ok {
+                        return (ts, Err("local".to_string()), issued);
+                    }
+                    let factory = |node: SocketAddr| {
+                        let clock = n.clock.clone();
+                        let channel = n.network.get_or_connect(node);
+                        let docs = docs.clone();
+                        let metas = metas.clone();
+                        let (nid, naddr) = (n.id, n.addr);
+                        async move {
+                            let mut client = ConsistencyClient::<Store>::new(clock, channel);
+                            let r = if is_put { client.multi_put(&ksn(), docs.into_iter(), nid, naddr).await } else { client.multi_del(&ksn(), metas).await };
+                            r.map_err(|e| StoreError::RpcError(node, e))?;
+                            Ok::<_, StoreError<<Store as Storage>::Error>>(())
+                        }
+                    };
+                    let r = verif::distribute::<Store, _, _>(addrs, factory).await;
+                    let r = match r {
+                        Ok(()) => Ok(()),
+                        Err(StoreError::ConsistencyError(datacake_node::ConsistencyError::ConsistencyFailure { responses, required, .. })) => Err(format!("consistency {}/{}", responses, required)),
+                        Err(e) => Err(format!("other {}", e.to_string().split_whitespace().next().unwrap_or(""))),
+                    };
+                    (ts, r, issued)
                 });
                 self.issued.entry(ksn()).or_default().push((i, issued));
                 match res {
